@@ -144,6 +144,66 @@ class InvalidCase(Exception):
     pass
 
 
+# ---- hostile comments at every position of every two-level nesting of constructs, in every mix of terminator styles
+C = gen.C
+NEST_KINDS = ['if', 'ife', 'try', 'loop', 'def']
+NEST_BODIES = ['hello'] + render.HOSTILE + ['END_DEF', '} ELSE', 'END_IF END_IF', '} EXCEPT {', 'end_try']
+
+
+def _nest_text(kind, brace, first, second, handle):
+    kw = {'if': 'IF', 'ife': 'IF', 'try': 'TRY', 'loop': 'LOOP', 'def': 'DEF %d' % handle}[kind]
+    mid = {'ife': 'ELSE', 'try': 'EXCEPT'}.get(kind)
+    end = {'if': 'END_IF', 'ife': 'END_IF', 'try': 'END_EXCEPT', 'loop': 'END_LOOP', 'def': 'END_DEF'}[kind]
+    if brace:
+        out = '%s { %s }' % (kw, first)
+        if mid:
+            out += ' %s { %s }' % (mid, second)
+        return out
+    out = '%s %s' % (kw, first)
+    if mid:
+        out += ' %s %s' % (mid, second)
+    return out + ' ' + end
+
+
+def _nest_tree(kind, first, second, handle):
+    if kind in ('ife', 'try'):
+        return [kind, first, second]
+    if kind == 'def':
+        return ['def', handle, first]
+    return [kind, first]
+
+
+def nest_case(case):
+    """-> (source text, expected bytes) or raises InvalidCase for the shapes the mixed syntax leaves ambiguous"""
+    outer, ob, inner, ib, pos, bi = case['outer'], case['obrace'], case['inner'], case['ibrace'], case['pos'], case['body']
+    if outer not in NEST_KINDS or inner not in NEST_KINDS or (outer == 'def' and inner == 'def') or not 0 <= pos <= 4:
+        raise InvalidCase('shape')
+    if not ob and ib and inner in ('if', 'try') and outer in ('ife', 'try') and pos in (0, 1, 2, 3):
+        raise InvalidCase('dangling ELSE / EXCEPT')      # the documented ambiguity (see render.py)
+    if not ob and ib and inner in ('if', 'try') and outer in ('ife', 'try'):
+        raise InvalidCase('dangling ELSE / EXCEPT')
+    cm = '# %s #' % NEST_BODIES[bi % len(NEST_BODIES)]
+    dup, nt = ['i', C['OP_DUP']], ['i', C['OP_NOT']]
+    ifirst = ' '.join(x for x in [cm if pos == 1 else '', 'DUP', cm if pos == 2 else ''] if x)
+    itext = _nest_text(inner, ib, ifirst, 'NOT', 1)
+    itree = _nest_tree(inner, [dup], [nt], 1)
+    ofirst = ' '.join(x for x in [cm if pos == 0 else '', itext, cm if pos == 3 else ''] if x)
+    osecond = ' '.join(x for x in ['SWAP2', cm if pos == 4 else ''] if x)
+    text = 'TRUE ' + _nest_text(outer, ob, ofirst, osecond, 0) + ' DEPTH'
+    tree = [['i', C['OP_TRUE']], _nest_tree(outer, [itree], [['i', C['OP_SWAP2']]], 0), ['i', C['OP_DEPTH']]]
+    return text, R.encode(tree)
+
+
+def check_nest(case):
+    text, expected = nest_case(case)
+    k, out = _compile(text)
+    if k == 'ok' and out != expected:
+        body = NEST_BODIES[case['body'] % len(NEST_BODIES)]
+        cls = 'closer' if any(w in body.lower() for w in ('}', 'end_', 'else', 'except')) else ('opener' if any(w in body for w in '{([') else 'other')
+        return [('c11/mis-assembled/comment-with-%s-in-nested-constructs' % cls, 'src %r -> %s expected %s' % (text, out.hex(), expected.hex()))], k
+    return [], k
+
+
 def check_case(case):
     if case.get('check') == 'src':
         tree, sp = case['prog'], case.get('sp', [0])
@@ -154,6 +214,8 @@ def check_case(case):
         except (IndexError, KeyError, TypeError, ValueError, AttributeError) as e:
             raise InvalidCase(repr(e))
         return fails
+    if case.get('check') == 'nest':
+        return check_nest(case)[0]
     if case.get('check') == 'text':
         # raw source text with its expected bytes (hand-written regression vectors)
         k, out = _compile(case['src'])
@@ -235,7 +297,31 @@ def task_spelled(ctx):
     hyp.drive(strat2, lambda ts: _one(ctx, ts[0], ts[1], 'spelled'), ctx.n(5000, 300000), ctx.seed + 2)
 
 
+def task_nesting(ctx):
+    import itertools
+    n = 0
+    for i, (outer, ob, inner, ib, pos, bi) in enumerate(itertools.product(NEST_KINDS, (True, False), NEST_KINDS, (True, False), range(5),
+                                                                           range(len(NEST_BODIES)))):
+        if i % ctx.nshards != ctx.shard:
+            continue
+        case = {'check': 'nest', 'outer': outer, 'obrace': ob, 'inner': inner, 'ibrace': ib, 'pos': pos, 'body': bi}
+        try:
+            fails, k = check_nest(case)
+        except InvalidCase:
+            ctx.count('nest:ambiguous-shape-skipped')
+            continue
+        n += 1
+        ctx.case(('nest', outer, ob, inner, ib, pos, bi), bi > 0)
+        ctx.count('nest:' + ('accepted' if k == 'ok' else 'rejected'))
+        for sig, det in fails:
+            ctx.fail('nest', sig, case, det)
+        if bi == 3 and pos == 1 and outer == 'ife' and inner == 'def':
+            ctx.sample({'source': nest_case(case)[0]})
+    ctx.exhaustive['two-level nestings x terminator styles x comment position x comment body'] = n
+
+
 TASKS = {
+    'nesting': (task_nesting, 2, 4),
     'canon': (task_canon, 6, 16),
     'spelled': (task_spelled, 16, 16),
 }
